@@ -41,6 +41,7 @@ type bookCase struct {
 	Numbering  int        `json:"numbering"`  // SAN numbering style
 	Procs      []int      `json:"gomaxprocs"`
 	WithSearch bool       `json:"with_search"`
+	SearchPly  int        `json:"search_after_plies,omitempty"` // a second search after this many moves of the first game (its leaf included)
 }
 
 type bookModel struct {
@@ -422,6 +423,84 @@ func propC19(c bookCase, o *hx.Obs) *hx.Failure {
 		if !res.BookMove {
 			return hx.Failf("C19/search/no-book-move", "time-controlled search in a book position did not use the book (best %s)", res.BestMove.StringUci())
 		}
+		// a second search of the same engine further down a game - inside the book, on its last position
+		// (a leaf: the book knows the position but offers nothing) or one move beyond
+		var prefix []rc.Move
+		for _, g := range c.Games {
+			q := start
+			prefix = prefix[:0]
+			for i, ms := range g.Moves {
+				if g.FaultAt >= 0 && i == g.FaultAt {
+					break
+				}
+				mv, ok := q.FindUCI(ms)
+				if !ok {
+					break
+				}
+				prefix = append(prefix, mv)
+				q = q.Make(mv)
+			}
+			if len(prefix) > 0 {
+				break
+			}
+		}
+		if len(prefix) > 0 && c.SearchPly > 0 {
+			k := c.SearchPly
+			if k > len(prefix) {
+				k = len(prefix)
+			}
+			q := start
+			ep := position.NewPosition()
+			for _, mv := range prefix[:k] {
+				q = q.Make(mv)
+				ep.DoMove(hx.ToEngine(mv))
+			}
+			if len(q.Legal()) > 0 {
+				// continuations the games offer in q
+				offered := map[string]bool{}
+				qsig := q.FEN4()
+				for _, g := range c.Games {
+					w := start
+					for i, ms := range g.Moves {
+						if g.FaultAt >= 0 && i == g.FaultAt {
+							break
+						}
+						mv, ok := w.FindUCI(ms)
+						if !ok {
+							break
+						}
+						if w.FEN4() == qsig {
+							offered[mv.UCI(true)] = true
+						}
+						w = w.Make(mv)
+					}
+				}
+				s.StartSearch(*ep, *sl)
+				done2 := make(chan struct{})
+				go func() { s.WaitWhileSearching(); close(done2) }()
+				select {
+				case <-done2:
+				case <-time.After(20 * time.Second):
+					return hx.Failf("C19/search/hang", "search on %s (after %d plies of the first game) did not finish", q.FEN(), k)
+				}
+				res2 := s.LastSearchResult()
+				best := hx.FromEngine(res2.BestMove).UCI(true)
+				if _, ok := q.FindUCI(best); !ok {
+					return hx.Failf("C19/search/book-move-illegal", "search on %s (after %d plies of the first game, book offers %v) returned %s (book move %v)", q.FEN(), k, offered, res2.BestMove.StringUci(), res2.BookMove)
+				}
+				if res2.BookMove && !offered[best] {
+					return hx.Failf("C19/search/book-move-not-in-games", "search on %s: book move %s, the games continue with %v", q.FEN(), best, offered)
+				}
+				if len(offered) > 0 && !res2.BookMove {
+					return hx.Failf("C19/search/no-book-move", "time-controlled search on %s did not use the book although the games continue with %v (best %s)", q.FEN(), offered, best)
+				}
+				if len(offered) == 0 {
+					o.Label("search-on-book-leaf")
+				} else {
+					o.Label("search-inside-book")
+				}
+			}
+		}
 	}
 	if m.transp {
 		o.Label("transposition")
@@ -758,7 +837,8 @@ func TestC19(t *testing.T) {
 	gen := func(decor int, faults bool, maxGames int) func(t *rapid.T) bookCase {
 		return func(t *rapid.T) bookCase {
 			return bookCase{Games: genGames(t, maxGames, 30, faults), Decor: decor, Numbering: rapid.IntRange(0, 2).Draw(t, "numbering"),
-				Procs: procsets[rapid.IntRange(0, len(procsets)-1).Draw(t, "procs")], WithSearch: rapid.IntRange(0, 9).Draw(t, "withSearch") == 0}
+				Procs: procsets[rapid.IntRange(0, len(procsets)-1).Draw(t, "procs")], WithSearch: rapid.IntRange(0, 5).Draw(t, "withSearch") == 0,
+				SearchPly: rapid.SampledFrom([]int{0, 1, 2, 5, 100, 100}).Draw(t, "searchPly")}
 		}
 	}
 	r.Inflight(true) // a concurrent map access in the parallel build is a fatal error of the Go runtime, not a panic
